@@ -35,7 +35,7 @@ func StartStallMonitor(limit time.Duration) *StallMonitor {
 			}
 			time.Sleep(2 * time.Millisecond)
 			now := time.Now()
-			if now.Sub(last) > m.limit {
+			if now.Sub(last) > fineLimit {
 				m.mu.Lock()
 				m.gaps = append(m.gaps, stallGap{last, now})
 				m.mu.Unlock()
@@ -52,21 +52,36 @@ func (m *StallMonitor) Stop() {
 	<-m.done
 }
 
-// StalledBetween reports whether a recorded gap overlaps [from, to].
+// StalledBetween reports whether a recorded gap of at least the monitor's main limit overlaps [from, to].
 func (m *StallMonitor) StalledBetween(from, to time.Time) bool {
+	return m.StalledBetweenOver(from, to, m.limit)
+}
+
+// StalledBetweenOver reports whether a recorded gap of at least min overlaps [from, to] (gaps are recorded from
+// fineLimit upwards).
+func (m *StallMonitor) StalledBetweenOver(from, to time.Time, min time.Duration) bool {
 	m.mu.Lock()
 	defer m.mu.Unlock()
 	for _, g := range m.gaps {
-		if g.to.After(from) && g.from.Before(to) {
+		if g.to.Sub(g.from) >= min && g.to.After(from) && g.from.Before(to) {
 			return true
 		}
 	}
 	return false
 }
 
-// Count is the number of recorded gaps.
+// fineLimit is the smallest scheduling gap that is recorded at all.
+const fineLimit = 6 * time.Millisecond
+
+// Count is the number of recorded gaps of at least the main limit.
 func (m *StallMonitor) Count() int {
 	m.mu.Lock()
 	defer m.mu.Unlock()
-	return len(m.gaps)
+	n := 0
+	for _, g := range m.gaps {
+		if g.to.Sub(g.from) >= m.limit {
+			n++
+		}
+	}
+	return n
 }
